@@ -11,7 +11,7 @@ pub struct PrefixFile {
 }
 impl PartialEq for PrefixFile {
     fn eq(&self, other: &Self) -> bool {
-        other.mtime.eq(&self.mtime)
+        other.mtime.eq(&self.mtime) && other.path.eq(&self.path)
     }
 }
 impl Eq for PrefixFile {}
@@ -22,7 +22,12 @@ impl PartialOrd for PrefixFile {
 }
 impl Ord for PrefixFile {
     fn cmp(&self, other: &Self) -> Ordering {
-        other.mtime.cmp(&self.mtime)
+        // Oldest first.  Among files with equal mtime, the smallest path first,
+        // so the order of deletion does not depend on the order of the directory listing.
+        other
+            .mtime
+            .cmp(&self.mtime)
+            .then_with(|| other.path.cmp(&self.path))
     }
 }
 
